@@ -269,10 +269,24 @@ def callable_scopes(ctx, prog):
     from lib import sym
     S = sym.Sym(prog, inline_depth=0)
     fe = prog.one("<sass::formal_args::FormalArgs>::eval")
-    oks = []
-    for bi, si, s in fe.stmts():
-        if s["k"] == "assign" and s["p"][0] == 0 and s["rv"]["k"] == "agg" and s["rv"].get("variant") == "Ok":
-            oks.append(sym.strip_transparent(S.operand(fe, s["rv"]["ops"][0])))
+    from rules.C18 import binder_set
+    _root, binders = binder_set(prog)
+    bset = {b_.def_ for b_ in binders}
+
+    def ret_terms(body, env, depth=0):
+        """terms of the scope returned on the success paths, looking through the FormalArgs helpers eval is
+        split into (their parameters replaced by the caller's arguments)"""
+        out = []
+        for bi, si, s in body.stmts():
+            if s["k"] == "assign" and s["p"][0] == 0 and not s["p"][1] and s["rv"]["k"] == "agg" and s["rv"].get("variant") == "Ok":
+                out.append(sym.strip_transparent(S.operand(body, s["rv"]["ops"][0], env=env)))
+        for bi, t in body.calls():
+            d = t.get("dest")
+            cn = mir.callee_name(t)
+            if d and d[0] == 0 and not d[1] and cn in bset and cn != body.def_ and depth < 3:
+                out += ret_terms(prog.bodies[cn], [S.operand(body, a, env=env) for a in t["args"]], depth + 1)
+        return out
+    oks = ret_terms(fe, None)
     good = oks and all(sym.match(t, ("call", "ScopeRef>::sub", [("param", 2)])) for t in oks)
     if good:
         ctx.ok("F4-callable-scope", "FormalArgs::eval always returns ScopeRef::sub(scope)", {"returns": [sym.show(t) for t in oks]})
